@@ -99,7 +99,13 @@ func genC02(r *gen.Rand, maxLayers int) *C02Case {
 				// follow-up: edit the container the previous layer fanned out
 				switch v := fanVal.(type) {
 				case map[string]any:
-					switch r.Intn(4) {
+					switch r.Intn(5) {
+					case 4:
+						if _, ok := v["w"].(map[string]any); ok {
+							patch[fanKey] = map[string]any{"w": map[string]any{"added": l}}
+						} else {
+							patch[fanKey] = map[string]any{"added": l}
+						}
 					case 0:
 						patch[fanKey] = map[string]any{gen.PickAny(r, gen.WideKeys[6:]): tc.Scalar(r)}
 					case 1:
@@ -120,7 +126,16 @@ func genC02(r *gen.Rand, maxLayers int) *C02Case {
 						patch[fanKey] = map[string]any{"y": l + 1}
 					}
 				case []any:
-					switch r.Intn(3) {
+					switch r.Intn(4) {
+					case 3:
+						if len(v) > 0 {
+							if m, ok := v[0].(map[string]any); ok && m["k"] != nil {
+								// edit inside the entry the previous layer appended everywhere
+								patch[fanKey] = []any{map[string]any{"$match": map[string]any{"k": m["k"]}, "env": map[string]any{"added": l}}}
+								break
+							}
+						}
+						patch[fanKey] = []any{l + 20}
 					case 0:
 						patch[fanKey] = []any{l + 10}
 					case 1:
@@ -144,13 +159,19 @@ func genC02(r *gen.Rand, maxLayers int) *C02Case {
 				// fan-out: introduce or replace a container in every target
 				k := gen.PickAny(r, append(append([]string{}, gen.DefaultKeys...), gen.WideKeys[6:9]...))
 				var v any
-				switch r.Intn(5) {
+				switch r.Intn(8) {
 				case 0:
 					v = []any{1, 2}
 				case 1:
 					v = map[string]any{"$replace": true, "x": 1, "w": map[string]any{"q": 1}}
 				case 2:
 					v = []any{map[string]any{"k": 1}, "$replace"}
+				case 3:
+					v = map[string]any{} // an empty container is a container too
+				case 4:
+					v = []any{map[string]any{"env": map[string]any{}, "k": 1}}
+				case 5:
+					v = map[string]any{"w": map[string]any{}, "l": []any{}}
 				default:
 					v = map[string]any{"x": 1, "w": map[string]any{"q": "s"}}
 				}
